@@ -2,7 +2,7 @@ SPECIFICATION Spec
 CONSTANTS
   Variant = "fixed"
   Tier = "q"
-  MaxFiles = 3
+  MaxFiles = 2
   MaxPerFile = 2
   MaxTotal = 3
   EmitCases = TRUE
